@@ -41,6 +41,23 @@ func scaleSource(shape string, n int) string {
 		sb.WriteString("print " + strings.Repeat("- ", n) + "1\n")
 	case "nested-def":
 		sb.WriteString(strings.Repeat("def a { ", n) + "f = 1 " + strings.Repeat("} ", n) + "\n")
+	case "nested-def-then", "nested-def-twice":
+		descent := func(sibling bool) {
+			for d := 1; d <= n; d++ {
+				fmt.Fprintf(&sb, "def a { print %d\n", d)
+			}
+			for d := n; d >= 1; d-- {
+				if sibling && d < 16 {
+					sb.WriteString("def s { print 0 }\n") // one more block at this level: d + 1 open at a time
+				}
+				sb.WriteString("}\n")
+			}
+		}
+		descent(shape == "nested-def-then")
+		if shape == "nested-def-twice" {
+			descent(false)
+		}
+		sb.WriteString("def t { print 7 }\n")
 	case "many-vars", "many-vars-read", "many-vars-in-block":
 		if shape == "many-vars-in-block" {
 			sb.WriteString("def b {\n")
@@ -354,6 +371,10 @@ func replayTotal(args []string) int {
 			}
 			want := string(bytesOf(c.Expect))
 			switch {
+			case want == "r":
+				if ierr == nil || !strings.HasPrefix(ierr.Error(), "runtime error") {
+					s.bad(fmt.Sprintf("%s n=%d: more blocks open at a time than the limit must be a runtime error, got err=%v", c.Shape, c.N, ierr), "limit:blocks-accepted", raw, string(trunc(out.Bytes(), 200)), true)
+				}
 			case want == "c" && (ierr == nil || strings.HasPrefix(ierr.Error(), "runtime error")):
 				s.bad(fmt.Sprintf("%s n=%d: a jump distance beyond 65535 must be rejected at compile time, got err=%v out=%q", c.Shape, c.N, ierr, trunc(out.Bytes(), 60)), "limit:jump-accepted", raw, string(trunc(out.Bytes(), 200)), true)
 			case want != "c" && (ierr != nil || out.String() != want+"\n"):
